@@ -51,6 +51,91 @@ def _unit_job(job):
                     errors=[traceback.format_exc()], vacuous_paths=0, models=[], wall_s=0)
 
 
+UNIT_WALL_S = {'quick': int(os.environ.get('PYVC_UNIT_WALL_S', '420')), 'thorough': int(os.environ.get('PYVC_UNIT_WALL_S', '1800'))}
+UNIT_MEM_BYTES = int(os.environ.get('PYVC_UNIT_MEM_GB', '6')) * (1 << 30)
+
+
+def _child(job, conn):
+    try:
+        import resource
+        resource.setrlimit(resource.RLIMIT_AS, (UNIT_MEM_BYTES, UNIT_MEM_BYTES))
+    except Exception:
+        pass
+    try:
+        r = _unit_job(job)
+    except MemoryError:
+        r = _failed_unit(job, 'verification unit exceeded its memory limit')
+    try:
+        conn.send(r)
+    except Exception as ex:
+        conn.send(_failed_unit(job, 'result not transferable: %s' % ex))
+    conn.close()
+
+
+def _run_jobs(jobs, nproc, tier):
+    """one process per verification unit, at most nproc at a time, each under a hard wall-clock and memory limit:
+    a unit that exceeds them is reported as UNDECIDED (solver run-away), never as a violation"""
+    ctxmp = multiprocessing.get_context('fork')
+    limit = UNIT_WALL_S[tier]
+    pending = list(jobs)
+    running = []
+    out = []
+    while pending or running:
+        while pending and len(running) < nproc:
+            job = pending.pop(0)
+            pc, cc = ctxmp.Pipe(duplex=False)
+            p = ctxmp.Process(target=_child, args=(job, cc))
+            p.start()
+            cc.close()
+            running.append((p, pc, job, time.time()))
+        still = []
+        progressed = False
+        for (p, pc, job, t0) in running:
+            if pc.poll(0):
+                try:
+                    out.append(pc.recv())
+                except EOFError:
+                    out.append(_failed_unit(job, 'worker died without a result (memory limit or crash)'))
+                p.join(5)
+                progressed = True
+            elif not p.is_alive():
+                got = False
+                if pc.poll(0.2):
+                    try:
+                        out.append(pc.recv())
+                        got = True
+                    except EOFError:
+                        pass
+                if not got:
+                    out.append(_failed_unit(job, 'worker died without a result (memory limit or crash)'))
+                progressed = True
+            elif time.time() - t0 > limit:
+                p.kill()
+                p.join(5)
+                out.append(_failed_unit(job, 'verification unit exceeded its wall-clock limit of %d s' % limit))
+                progressed = True
+            else:
+                still.append((p, pc, job, t0))
+        running = still
+        if not progressed:
+            time.sleep(0.02)
+    return out
+
+
+def _failed_unit(job, why):
+    kind, a, b = job[0], job[1], job[2]
+    name = a if kind == 'unit' else 'lemma#%s' % a
+    cfgname = '-'
+    if kind == 'unit':
+        try:
+            from pyvc.contract import REGISTRY
+            cfgname = REGISTRY[a].config_name(b)
+        except Exception:
+            cfgname = str(b)
+    return dict(target=str(name), cfg=cfgname, cfg_raw=b if isinstance(b, dict) else {}, obligations=[],
+                unsupported=[dict(path=-1, why=why)], witnesses=[], paths=1, errors=[], vacuous_paths=0, models=[], wall_s=0)
+
+
 def replay_batch(items):
     """run path witnesses / samples on the real code under the repository interpreter"""
     if not items:
@@ -160,10 +245,7 @@ def _check(prop, tier, seed, args, t0):
         pe = subprocess.Popen(ext['cmd'], cwd=VERIF, stdout=subprocess.PIPE, stderr=subprocess.STDOUT, text=True)
         externals.append((ext, pe, te))
     if jobs:
-        ctxmp = multiprocessing.get_context('fork')
-        with ctxmp.Pool(processes=max(1, min(args.jobs, len(jobs)))) as pool:
-            for r in pool.imap_unordered(_unit_job, jobs):
-                results.append(r)
+        results.extend(_run_jobs(jobs, max(1, min(args.jobs, len(jobs))), tier))
     for ext, pe, te in externals:
         try:
             outp, _ = pe.communicate(timeout=ext.get('timeout', 900))
